@@ -1256,13 +1256,15 @@ HISTORY_KINDS = {       # parameter, value in run 1, value in run 2
 SEED_FILES = ("emis_preseed.p", "preseed.p")     # constants.file_name_constants.Generator_Files
 
 
-def history_configs(rng, kind):
+def history_configs(rng, kind, wide=None):
     """(cfg1, cfg2): one generated world, baseline + one program (OGI, AIR, OGI_FU); the two differ ONLY in one
     coverage / detection-limit parameter of the program's methods"""
     import copy
     from harness import wholerun as W
 
-    cfg = W.make_config(rng, n_sims=1, ndays=rng.choice([120, 200]))
+    nd = rng.choice([120, 200])
+    cfg = W.make_config(rng, ndays=nd, wide=wide) if wide else W.make_config(rng, n_sims=1, ndays=nd)
+    cfg["n_sims"] = 1
     names = ["OGI", "AIR", "OGI_FU"]
     par, v1, v2 = HISTORY_KINDS[kind]
     out = []
@@ -1270,7 +1272,8 @@ def history_configs(rng, kind):
         c = copy.deepcopy(cfg)
         c["methods"] = {m: copy.deepcopy(cfg["methods"][m]) for m in names}
         for m in names:
-            c["methods"][m].update({"spatial": 1.0, "temporal": 1.0})
+            if not wide:
+                c["methods"][m].update({"spatial": 1.0, "temporal": 1.0})
             c["methods"][m][par] = v
         c["programs"] = [{"name": "P_none", "methods": []}, {"name": "P_M", "methods": names}]
         c["baseline"] = "P_none"
@@ -1294,12 +1297,13 @@ def wholerun_history_one(args):
     import tempfile
     from harness import wholerun as W
 
-    seed, kind = args
-    cfg1, cfg2 = history_configs(random.Random(seed), kind)
+    seed, kind = args[0], args[1]
+    wide = args[2] if len(args) > 2 else None
+    cfg1, cfg2 = history_configs(random.Random(seed), kind, wide)
     root = tempfile.mkdtemp(prefix="ldarverif_c05hist_")
     fresh = tempfile.mkdtemp(prefix="ldarverif_c05hist_")
-    out = {"seed": seed, "kind": kind, "findings": [], "stats": None, "rows": 0, "problem": None,
-           "run1_tags": 0, "run2_tags": 0}
+    out = {"seed": seed, "kind": kind, "wide": wide, "wide_applied": cfg2.get("wide_applied", []), "findings": [],
+           "stats": None, "rows": 0, "problem": None, "run1_tags": 0, "run2_tags": 0}
     try:
         r1 = W.run_config(cfg1, debug=True, processes=1, trace=True, workdir=root)
         if r1.rc != 0 and r1.emissions("P_none", 0) is None:
@@ -1401,8 +1405,9 @@ def wholerun_oracle(ctx):
     kinds = sorted(HISTORY_KINDS)
     n_hist = ctx.pick(1, 5)
     # quick: the covered-then-blind history; thorough: that one plus four others chosen by the seed
-    hjobs = [(ctx.rng.randrange(1 << 30), "spatial-1-to-0" if i == 0 else kinds[(i + ctx.seed) % len(kinds)])
-             for i in range(n_hist)]
+    hwide = ["followup", "crews", "workday", "weather", "months", "years"]
+    hjobs = [(ctx.rng.randrange(1 << 30), "spatial-1-to-0" if i == 0 else kinds[(i + ctx.seed) % len(kinds)],
+              hwide if i >= 3 else None) for i in range(n_hist)]
     with ThreadPoolExecutor(max_workers=min(len(jobs) + n_hist, max(1, (os.cpu_count() or 2) // 2), 8)) as ex:
         hfut = [ex.submit(wholerun_history_one, j) for j in hjobs]
         outs = list(ex.map(wholerun_one, jobs))
@@ -1411,11 +1416,17 @@ def wholerun_oracle(ctx):
             try:
                 houts.append(f.result())
             except (Exception, SystemExit) as e:
-                houts.append({"seed": j[0], "kind": j[1], "findings": [], "stats": None, "rows": 0,
+                houts.append({"seed": j[0], "kind": j[1], "wide": j[2], "wide_applied": [], "findings": [],
+                              "stats": None, "rows": 0,
                               "problem": "harness/worker raised: " + _tb(e), "run1_tags": 0, "run2_tags": 0})
     for h in houts:
-        inp = {"stage": "wholerun_history", "seed": h["seed"], "kind": h["kind"]}
+        inp = {"stage": "wholerun_history", "seed": h["seed"], "kind": h["kind"], "wide": h.get("wide"),
+               "wide_applied": h.get("wide_applied")}
         ctx.count("wholerun-history:" + h["kind"])
+        if h.get("wide"):
+            ctx.count("wide:history-runs")
+            for a in h.get("wide_applied", []):
+                ctx.count("wide:applied:%s:%s=%s" % (a["tag"], ".".join(map(str, a["path"][1:])), json.dumps(a["value"])))
         if h["problem"]:
             ctx.broke("whole-run history (%s, seed %d) could not be evaluated" % (h["kind"], h["seed"]), h["problem"])
             ctx.disagree("wholerun.history", inp, "three runs complete", h["problem"][-300:])
@@ -1592,7 +1603,7 @@ def replay(ctx, data):
         finally:
             world.cleanup()
     elif stage == "wholerun_history":
-        h = wholerun_history_one((inp["seed"], inp["kind"]))
+        h = wholerun_history_one((inp["seed"], inp["kind"], inp.get("wide")))
         print("history", h["kind"], "rows", h["rows"], "tags run 1 / run 2:", h["run1_tags"], h["run2_tags"],
               "problem:", h["problem"])
         for (sig, what, detail) in h["findings"]:
